@@ -164,6 +164,26 @@ def cmd_check(prop, tier, seed):
                 print('  minimised to %d plan lines in %d re-executions; replay: bin/check replay %s'
                       % (res['plan_lines'], res['shrink_runs'], res['path']))
             sys.stdout.flush()
+    # every listed (unrepaired) finding of this property that the sampled runs did not happen to meet is replayed
+    # from its committed plan, so that the list of KNOWN-FINDING lines does not depend on the seed
+    for e in known:
+        if e.get('status') != 'known' or e.get('property') != prop or not e.get('plan'):
+            continue
+        if any(core.sig_matches(e['signature'], r) for r in reported):
+            continue
+        tot = next((t for t in totals if t['engine'] == e.get('engine') and t['config'] == e.get('config')), None)
+        path = os.path.join(os.path.dirname(os.path.dirname(os.path.abspath(__file__))), e['plan'])
+        if tot is None or not os.path.exists(path):
+            continue                    # its stage is not part of this tier
+        eng = load_engine(e['engine'])
+        sigs, _h, _st = core.evaluate_fresh(eng, e['config'], tot['exe'], path, prop, opts=dict(prop=prop))
+        hit = [s_ for _p, s_, _d in sigs if core.sig_matches(e['signature'], s_)]
+        if hit:
+            reported.add(hit[0])
+            print('KNOWN-FINDING: property=%s %s [signature %s; replay=%s]' % (prop, e['what'], hit[0], path))
+        else:
+            print('NOTE: the listed finding %s did not reproduce from its committed plan %s (repaired?)' % (e['signature'], e['plan']))
+        sys.stdout.flush()
     wall = time.time() - t0
     extra = dict(
         known_findings_reported=sorted(s for s in reported if core.known_entry(s, known)),
